@@ -157,6 +157,10 @@ func RunOne(t *testing.T, cfg RunCfg, out string) {
 		if cfg.Faults["predicate_flap"] {
 			s.shim.PredFlapP = 0.12
 		}
+		if cfg.Faults["predicate_side_effect"] {
+			s.shim.SideEffectP = 0.1
+			s.shim.sideEffect = s.predicateSideEffect
+		}
 		if cfg.Faults["callback_error"] {
 			s.shim.CBErrorP = 0.05
 		}
